@@ -15,8 +15,8 @@ import (
 var _ = packet.NewPuback
 
 type step struct {
-	kind string // in | inerr | deq | ack | ackall | close | settle | reconnect | drain | react | idle | stall | unstall | pause | deqhold | deqrelease
-	name string // react: the new mode
+	kind string        // in | inerr | deq | ack | ackall | close | settle | reconnect | drain | react | idle | stall | unstall | pause | deqhold | deqrelease
+	name string        // react: the new mode
 	wait time.Duration // idle: how long the peer stays silent at most
 	pkt  packet.Generic
 	msg  *packet.Message
@@ -53,7 +53,7 @@ type scenario struct {
 	// fraction of the token timeout: at the end of the script the connection is still up and every request the peer sent on
 	// it (SUBSCRIBE, UNSUBSCRIBE, PUBLISH QoS>0, PUBREL, PINGREQ) has got its response (clause c20_served, judged by the harness)
 	expectServed bool
-	wantTimeout   time.Duration // the read timeout the broker must have armed after an accepted CONNECT (0 = not checked)
+	wantTimeout  time.Duration // the read timeout the broker must have armed after an accepted CONNECT (0 = not checked)
 }
 
 func (sc *scenario) text() string {
